@@ -137,14 +137,27 @@ func render(v ssa.Value, depth int) string {
 	case *ssa.MakeClosure:
 		return "closure " + x.Fn.Name()
 	case *ssa.Phi:
-		var parts []string
-		for _, e := range x.Edges {
-			parts = append(parts, render(e, depth+1))
+		// a loop-carried or merged variable: named by its source variable (go/ssa keeps it in Comment)
+		if x.Comment != "" {
+			return x.Comment
 		}
-		return "φ(" + strings.Join(parts, ", ") + ")"
+		return "φ" + x.Name()
 	case *ssa.Call:
 		var args []string
-		for _, a := range x.Call.Args {
+		for i, a := range x.Call.Args {
+			// expand a literal variadic argument list
+			if i == len(x.Call.Args)-1 {
+				if sl, ok := a.(*ssa.Slice); ok {
+					if al, ok := sl.X.(*ssa.Alloc); ok && al.Comment == "varargs" {
+						if elems, ok := SliceElems(sl); ok {
+							for _, e := range elems {
+								args = append(args, render(e, depth+1))
+							}
+							continue
+						}
+					}
+				}
+			}
 			args = append(args, render(a, depth+1))
 		}
 		if x.Call.IsInvoke() {
